@@ -13,6 +13,7 @@ Oldest(S, n) == {i \in S : Cardinality({j \in S : j < i}) < n}
 HInit == Init /\ hist = <<>>
 HNext ==
   \/ \E d \in Deltas : Idle /\ Push(d) /\ H(<<"push", d.id>>)
+  \/ InstallCheckpoint /\ H(<<"ckpt", "none">>)
   \/ FlushStart /\ UNCHANGED hist
   \/ FlushGet(TRUE) /\ UNCHANGED hist
   \/ FlushGet(FALSE) /\ H(<<"flush", "get_man:fail">>)
